@@ -15,6 +15,15 @@ Workloads
           two connections ended in either order with stop_advertising() / start_advertising() in between;
           both ends of every connection agree on peer / self addresses, and Device.is_advertising and what a
           scanner hears both match an independent ledger of the advertising state
+  pending a dual-role device that advertises (legacy / extended / an advertising set with its own address, own address
+          PUBLIC / RANDOM) while its own connect(), made with the same or the OTHER own-address type, is still PENDING
+          towards a silent peer, and is connected to in that window; the silent peer then advertises and the attempt
+          completes, or it times out: address relations on both connections, each caller gets its own connection, data
+          to the right peer only, disconnections reported to both
+  recon   a bulk transfer (more fragments than the controller has buffers, unacknowledged) cut by a disconnection of
+          either side, then a NEW connection of that device (same or third device, either direction, the peripheral
+          reached through a random / public / advertising-set address): address relations, and every PDU of the new
+          connection delivered exactly once, in order, to its peer and to nobody else
 """
 from __future__ import annotations
 
@@ -29,8 +38,14 @@ LEVEL = 'exploration'
 RULE = ('seeded scenarios; mesh: non-trivial when >= 3 devices or a public own-address or extended advertising is '
         'involved; distinct = distinct (address types, advertising kinds, connection graph, disconnect order). '
         'scan: one per (scanner modes, advertiser kinds, payload lengths); dual: one per (advertiser kind, own-address '
-        'types, auto-restart, order of connects / disconnects / stop / start)')
+        'types, auto-restart, order of connects / disconnects / stop / start); pending: one per (advertiser kind, own-address '
+        'type advertised / used by the pending connect / used by the incoming central, order, outcome); recon: one per '
+        '(buffer count, address kinds, directions, who sends the bulk, who disconnects)')
 ASSUMPTIONS = [
+    'pending: a connect() to a peer that does not advertise yet legitimately pends; the own address of a connection is the '
+    'address that was on the air for it (the advertised address for the acceptor, the address of the own-address type given '
+    'to connect() for the initiator)',
+    'recon: PDUs of the bulk transfer that is cut may be lost; PDUs written on a connection made afterwards may not',
     'dual: an outgoing connection does not change whether a device advertises; an incoming connection ends the '
     'advertising it was made through; auto-restart resumes that advertising when that connection ends unless the host '
     'called stop_advertising()/start_advertising() in the meantime; Device.is_advertising is not judged for a legacy '
@@ -46,13 +61,23 @@ MIN_EVENTS = {
               'advset_phases_verified': 300, 'last_words_checked': 150, 'advset_handle_reused_after_remove': 40,
               'dual_cases': 300, 'dual_connections_checked': 800, 'dual_observations': 2000,
               'dual_is_advertising_checked': 1600, 'dual_outgoing_while_advertising': 200,
-              'dual_incoming_after_outgoing': 250, 'dual_stop_start_steps': 160},
+              'dual_incoming_after_outgoing': 250, 'dual_stop_start_steps': 160,
+              'pending_cases': 280, 'pending_cases_mixed_own_address_types': 100, 'pending_incoming_while_outgoing_pending': 250,
+              'pending_outgoing_completed_after_incoming': 150, 'pending_outgoing_timed_out': 25,
+              'recon_cases': 180, 'recon_bulk_transfers_cut': 180, 'recon_bulk_transfers_cut_from_A': 100,
+              'recon_new_connections_after_cut': 180, 'recon_connections_public': 100, 'recon_connections_set_random': 20,
+              'recon_connections_set_public': 25},
     'thorough': {'connections_checked': 10000, 'payloads_checked': 60000, 'disconnections_checked': 7000,
                  'adv_events_checked': 6000, 'steal_cases': 1000, 'churn_cases': 1000, 'fragadv_cases': 400, 'ghost_cases': 200,
                  'advset_phases_verified': 2400, 'last_words_checked': 1200, 'advset_handle_reused_after_remove': 300,
                  'dual_cases': 2400, 'dual_connections_checked': 6400, 'dual_observations': 16000,
                  'dual_is_advertising_checked': 12800, 'dual_outgoing_while_advertising': 1600,
-                 'dual_incoming_after_outgoing': 2000, 'dual_stop_start_steps': 1300},
+                 'dual_incoming_after_outgoing': 2000, 'dual_stop_start_steps': 1300,
+                 'pending_cases': 2200, 'pending_cases_mixed_own_address_types': 800, 'pending_incoming_while_outgoing_pending': 2000,
+                 'pending_outgoing_completed_after_incoming': 1200, 'pending_outgoing_timed_out': 200,
+                 'recon_cases': 1400, 'recon_bulk_transfers_cut': 1400, 'recon_bulk_transfers_cut_from_A': 800,
+                 'recon_new_connections_after_cut': 1400, 'recon_connections_public': 800, 'recon_connections_set_random': 160,
+                 'recon_connections_set_public': 200},
 }
 CASE_TIMEOUT = 300
 CID = 0x0074
@@ -78,6 +103,10 @@ def plan(tier, seed):
         cases.append({'kind': 'advsets', 'seed': seed * 1000003 + i})
     for i in range(400 if tier == 'quick' else 3000):
         cases.append({'kind': 'dual', 'seed': seed * 1000003 + i})
+    for i in range(300 if tier == 'quick' else 2400):
+        cases.append({'kind': 'pending', 'seed': seed * 1000003 + i})
+    for i in range(200 if tier == 'quick' else 1600):
+        cases.append({'kind': 'recon', 'seed': seed * 1000003 + i})
     return cases
 
 
@@ -1059,6 +1088,345 @@ async def dual(case, r: R):
     r.sample = {'kind': 'dual', 'advertiser': kind, 'history': hist}
 
 
+# -----------------------------------------------------------------------------
+# address kinds a peripheral can be reached through
+async def advertise_as(rg, dev, kind, tag=0, restart=False):
+    """Device `dev` becomes connectable through: 'random' / 'public' (legacy API, controller addresses), 'set-random'
+    (an extended advertising set with its OWN random address) or 'set-public'. Returns the address on the air."""
+    from bumble import hci
+    from bumble.device import AdvertisingParameters, AdvertisingEventProperties
+    d = rg.devices[dev]
+    if kind.startswith('set'):
+        own = hci.OwnAddressType.PUBLIC if kind == 'set-public' else hci.OwnAddressType.RANDOM
+        set_address = hci.Address(f'C{dev}:5E:75:E7:0{tag & 7}:F{dev}', hci.Address.RANDOM_DEVICE_ADDRESS)
+        await vloop.vwait(d.create_advertising_set(
+            advertising_parameters=AdvertisingParameters(
+                advertising_event_properties=AdvertisingEventProperties(is_connectable=True, is_scannable=False),
+                primary_advertising_interval_min=40, primary_advertising_interval_max=40, own_address_type=own),
+            random_address=set_address, auto_start=True))
+        return d.public_address if kind == 'set-public' else set_address
+    own = hci.OwnAddressType.PUBLIC if kind == 'public' else hci.OwnAddressType.RANDOM
+    await vloop.vwait(d.start_advertising(auto_restart=restart, own_address_type=own, advertising_interval_min=40,
+                                          advertising_interval_max=40))
+    return d.public_address if kind == 'public' else d.random_address
+
+
+def address_relations(r, key, c_init, c_acc, acc_addr, init_addr, ctx):
+    """Both ends report the connection with matching addresses: what the initiator connected to is what the acceptor
+    says it is, and the other way round."""
+    r.ev('connections_checked')
+    r.ev('oracle_evals', 4)
+    ok = True
+    for what, got, want in (('initiator.peer_address', c_init.peer_address, acc_addr),
+                            ('acceptor.self_address', c_acc.self_address, acc_addr),
+                            ('acceptor.peer_address', c_acc.peer_address, init_addr),
+                            ('initiator.self_address', c_init.self_address, init_addr)):
+        if got != want:
+            ok = False
+            r.bad(f'connect/address-mismatch/{key}', f'{what} is {got!r}, the address used on the air is {want!r}; {ctx()}')
+    return ok
+
+
+async def pending(case, r: R):
+    """D is central and peripheral at the same time: it advertises with one own-address type while its own connect() to
+    P, made with the same or the OTHER own-address type, is still pending (P is silent); C connects to D in that
+    window. Then P starts advertising and D's attempt completes (or it never does and the attempt times out). Both
+    ends of both connections must agree on the addresses, the caller of each connect() gets its own connection, and
+    data on each connection reaches its peer only."""
+    from bumble import hci, core
+    from vlib import rig as vrig
+    rng = random.Random(case['seed'] ^ 0x9E4D)
+    vrig.seed_entropy(case['seed'])
+    ext = [rng.random() < 0.4 for _ in range(3)]
+    rg = make_rig(rng, case, 3, ext)
+    await rg.power_on()
+    ev = Events(rg)
+    C, D, P = rg.devices            # 0, 1, 2
+    adv_kind = rng.choice(['random', 'public', 'public'] + (['set-random', 'set-public'] if ext[1] else []))
+    d_init_pub = rng.random() < 0.5
+    c_pub = rng.random() < 0.3
+    p_kind = rng.choice(['random', 'public'])
+    outcome = rng.choice(['peer-shows-up', 'peer-shows-up', 'peer-shows-up', 'times-out'])
+    adv_first = rng.random() < 0.6
+    mixed = (adv_kind.endswith('public')) != d_init_pub
+    kind = f'{"extended" if ext[1] else "legacy"}/adv-{adv_kind}/connect-{"public" if d_init_pub else "random"}'
+    hist = []
+    r.ev('pending_cases')
+    if mixed:
+        r.ev('pending_cases_mixed_own_address_types')
+
+    def ctx():
+        return f'{kind} ext={ext}; after {hist}'
+
+    out = None
+    try:
+        p_target = P.public_address if p_kind == 'public' else P.random_address
+        d_own = hci.OwnAddressType.PUBLIC if d_init_pub else hci.OwnAddressType.RANDOM
+        d_init_addr = D.public_address if d_init_pub else D.random_address
+
+        async def start_out():
+            return asyncio.ensure_future(D.connect(p_target, own_address_type=d_own, timeout=rng.choice([8, 30])))
+        if adv_first:
+            target = await advertise_as(rg, 1, adv_kind)
+            hist.append(f'D-advertises/{adv_kind}')
+            out = await start_out()
+            hist.append('D-connect-pending')
+        else:
+            out = await start_out()
+            hist.append('D-connect-pending')
+            for _ in range(rng.randint(1, 30)):
+                await asyncio.sleep(0)
+            target = await advertise_as(rg, 1, adv_kind)
+            hist.append(f'D-advertises/{adv_kind}')
+        for _ in range(rng.randint(1, 40)):
+            await asyncio.sleep(0)
+        r.ev('oracle_evals')
+        if out.done():
+            r.bad(f'pending/outgoing-concluded-early/{kind}', f'connect() to a silent peer is done already: {out}; {ctx()}')
+            return
+        # ---- C connects to D while D's own attempt is pending
+        before = len(ev.conn[1])
+        c_own = hci.OwnAddressType.PUBLIC if c_pub else hci.OwnAddressType.RANDOM
+        c_to_d = await vloop.vwait(C.connect(target, own_address_type=c_own, timeout=20))
+        await rg.quiesce()
+        hist.append('C-connected-to-D')
+        r.ev('pending_incoming_while_outgoing_pending')
+        new = ev.conn[1][before:]
+        r.ev('oracle_evals', 2)
+        if len(new) != 1 or new[0].role != hci.Role.PERIPHERAL:
+            r.bad(f'connect/peer-events/pending/{kind}', f'D got {[(c.role, str(c.peer_address)) for c in new]} connection events '
+                                                        f'for one connect by C; {ctx()}')
+            return
+        d_from_c = new[0]
+        if out.done():
+            res = out.exception() if not out.cancelled() else 'cancelled'
+            r.bad(f'pending/outgoing-concluded-by-incoming/{kind}',
+                  f"D's connect() to the silent P was concluded by the connection C made: {res or out.result()}; {ctx()}")
+            return
+        if not address_relations(r, f'pending/incoming/{kind}', c_to_d, d_from_c, target,
+                                 C.public_address if c_pub else C.random_address, ctx):
+            return
+        pairs = [(0, 1, c_to_d, d_from_c)]
+        # ---- P shows up (or never does)
+        if outcome == 'peer-shows-up':
+            before_p = len(ev.conn[2])
+            await advertise_as(rg, 2, p_kind)
+            hist.append('P-advertises')
+            d_to_p = await vloop.vwait(out)
+            await rg.quiesce()
+            hist.append('D-connected-to-P')
+            r.ev('pending_outgoing_completed_after_incoming')
+            new_p = ev.conn[2][before_p:]
+            r.ev('oracle_evals', 3)
+            if d_to_p is d_from_c or d_to_p.role != hci.Role.CENTRAL or d_to_p.peer_address != p_target:
+                r.bad(f'pending/outgoing-connect-handed-wrong-connection/{kind}',
+                      f'connect({p_target}) returned {d_to_p} (role {d_to_p.role}); {ctx()}')
+                return
+            if len(new_p) != 1:
+                r.bad(f'connect/peer-events/pending/{kind}', f'P got {len(new_p)} connection events; {ctx()}')
+                return
+            if not address_relations(r, f'pending/outgoing/{kind}', d_to_p, new_p[0], p_target, d_init_addr, ctx):
+                return
+            r.ev('oracle_evals')
+            if d_to_p.handle == d_from_c.handle:
+                r.bad(f'connect/handles/pending/{kind}', f'both connections of D have handle {d_to_p.handle:#x}; {ctx()}')
+            pairs.append((1, 2, d_to_p, new_p[0]))
+        else:
+            try:
+                res = await vloop.vwait(out)
+                r.bad(f'pending/outgoing-connect-to-silent-peer-succeeded/{kind}', f'connect({p_target}) returned {res}; {ctx()}')
+                return
+            except (core.TimeoutError, asyncio.TimeoutError, core.ConnectionError):
+                r.ev('pending_outgoing_timed_out')
+                hist.append('D-connect-timed-out')
+            await rg.quiesce()
+            # the incoming connection is untouched, with the same addresses
+            r.ev('oracle_evals')
+            if d_from_c.handle not in [c.handle for c in D.connections.values()]:
+                r.bad(f'pending/incoming-connection-lost/{kind}', f'D no longer has the connection from C; {ctx()}')
+                return
+            if not address_relations(r, f'pending/incoming-after-timeout/{kind}', c_to_d, d_from_c, target,
+                                     C.public_address if c_pub else C.random_address, ctx):
+                return
+        # ---- data on every connection, both directions: to the peer only
+        marks = {i: len(ev.rx[i]) for i in range(3)}
+        want = {i: [] for i in range(3)}
+        k = 0
+        for (a, b, ca, cb) in pairs:
+            for (s_, d_, cs, cd) in ((a, b, ca, cb), (b, a, cb, ca)):
+                for _ in range(rng.randint(1, 3)):
+                    k += 1
+                    p_ = bytes([0xD1, s_, d_, k]) + bytes(rng.choice([0, 5, 60]))
+                    rg.devices[s_].send_l2cap_pdu(cs.handle, CID, p_)
+                    want[d_].append((cd.handle, p_))
+        await rg.quiesce()
+        for i in range(3):
+            r.ev('payloads_checked', len(want[i]))
+            r.ev('oracle_evals')
+            have = ev.rx[i][marks[i]:]
+            if sorted(have) != sorted(want[i]):
+                lost = [w for w in want[i] if w not in have]
+                r.bad(f'data/{"lost" if lost else "misdelivered"}/pending/{kind}',
+                      f'device {i} received {have}, expected {want[i]}; {ctx()}')
+                return
+        # ---- both connections end, by either side; reported to both
+        for (a, b, ca, cb) in pairs:
+            da, db = len(ev.disc[a]), len(ev.disc[b])
+            await vloop.vwait(rng.choice([ca, cb]).disconnect())
+            await rg.quiesce()
+            r.ev('disconnections_checked')
+            r.ev('oracle_evals')
+            if [h for h, _ in ev.disc[a][da:]] != [ca.handle] or [h for h, _ in ev.disc[b][db:]] != [cb.handle]:
+                r.bad(f'disconnect/not-reported-to-both/pending/{kind}',
+                      f'device {a} events {ev.disc[a][da:]}, device {b} events {ev.disc[b][db:]}; {ctx()}')
+        r.ev('pending_cases_completed')
+    except vloop.Hang:
+        r.bad(f'pending/hang/{kind}', f'a call was still pending at T_v; {ctx()}')
+    except (core.TimeoutError, asyncio.TimeoutError, core.ConnectionError, hci.HCI_Error, core.InvalidStateError) as e:
+        r.bad(f'pending/call-failed/{type(e).__name__}/{kind}', f'{type(e).__name__}: {e}; {ctx()}')
+    finally:
+        if out is not None and not out.done():
+            out.cancel()
+    for where, e in rg.exceptions:
+        r.bad('link/exception-in-stack', f'{where}: {e}; pending {ctx()}')
+    r.sig('pending', kind, c_pub, p_kind, outcome, adv_first)
+    r.sched.add(rg.schedule_signature)
+    r.evals()
+    r.sample = {'kind': 'pending', 'scenario': kind, 'history': hist}
+
+
+async def recon(case, r: R):
+    """A is connected to X (either direction, the peripheral reached through a random / public / advertising-set
+    address), a bulk transfer (more fragments than the controller has buffers, unacknowledged) is cut by a
+    disconnection of either side, then A gets a NEW connection (to X again or to Y, either direction): every PDU sent
+    on it is delivered exactly once, in order, to that connection's peer and to nobody else."""
+    from bumble import hci, core
+    from vlib import rig as vrig
+    rng = random.Random(case['seed'] ^ 0x4EC0)
+    vrig.seed_entropy(case['seed'])
+    ext = [rng.random() < 0.5 for _ in range(3)]
+    num = rng.choice([2, 8, 64, 64])
+    rg = vrig.Rig(3, seed=case['seed'], max_delay=rng.choice([0, 0, 1, 3]), le_acl_num=num,
+                  collide_addresses=rng.random() < 0.3)
+    for i, e in enumerate(ext):
+        if e:
+            rg.controllers[i].le_features = rg.controllers[i].le_features | hci.LeFeatureMask.LE_EXTENDED_ADVERTISING
+    await rg.power_on()
+    ev = Events(rg)
+    hist = []
+    r.ev('recon_cases')
+    counter = [0]
+
+    def ctx():
+        return f'buffers={num} ext={ext}; history {hist}'
+
+    async def connect(a_is_central, other, tag):
+        """Returns (A's connection, the other's connection, address kind of the peripheral)."""
+        ci, pi = (0, other) if a_is_central else (other, 0)
+        kind = rng.choice(['random', 'public'] + (['set-random', 'set-public'] if ext[pi] else []))
+        before = len(ev.conn[pi])
+        target = await advertise_as(rg, pi, kind, tag)
+        c_pub = rng.random() < 0.3
+        cc = await vloop.vwait(rg.devices[ci].connect(
+            target, own_address_type=hci.OwnAddressType.PUBLIC if c_pub else hci.OwnAddressType.RANDOM, timeout=20))
+        await rg.quiesce()
+        new = ev.conn[pi][before:]
+        r.ev('oracle_evals')
+        label = f'peripheral-{kind}'
+        if len(new) != 1:
+            r.bad(f'connect/peer-events/recon/{label}', f'device {pi} got {len(new)} connection events; {ctx()}')
+            return None
+        hist.append(f'connected/A-is-{"central" if a_is_central else "peripheral"}/{label}/with-{other}')
+        r.ev(f'recon_connections_{kind.replace("-", "_")}')
+        init_addr = rg.devices[ci].public_address if c_pub else rg.devices[ci].random_address
+        if not address_relations(r, f'recon/{label}', cc, new[0], target, init_addr, ctx):
+            return None
+        return (cc, new[0], label) if a_is_central else (new[0], cc, label)
+
+    async def exchange(ca, co, other, phase, label):
+        """Unique PDUs both ways between A and `other`, some needing several fragments."""
+        marks = {i: len(ev.rx[i]) for i in range(3)}
+        want = {i: [] for i in range(3)}
+        for (s_, d_, cs, cd) in ((0, other, ca, co), (other, 0, co, ca)):
+            for _ in range(rng.randint(2, 5)):
+                counter[0] += 1
+                p_ = bytes([0xEC, s_, d_]) + counter[0].to_bytes(3, 'little') + bytes(rng.choice([0, 10, 60, 200]))
+                rg.devices[s_].send_l2cap_pdu(cs.handle, CID, p_)
+                want[d_].append((cd.handle, p_))
+                if rng.random() < 0.3:
+                    await asyncio.sleep(0)
+        await rg.quiesce()
+        await asyncio.sleep(1.0)
+        await rg.quiesce()
+        ok = True
+        for i in range(3):
+            have = ev.rx[i][marks[i]:]
+            r.ev('payloads_checked', len(want[i]))
+            r.ev('oracle_evals')
+            if have != want[i]:
+                ok = False
+                lost = [w for w in want[i] if w not in have]
+                extra = [h for h in have if h not in want[i]]
+                what = 'lost' if lost else 'misdelivered' if extra else 'reordered-or-duplicated'
+                r.bad(f'data/{what}/recon/{phase}/{label}',
+                      f'device {i} received {len(have)} PDUs, expected {len(want[i])} (missing {len(lost)}, foreign {len(extra)}); '
+                      f'packets still queued in host 0: {rg.hosts[0].le_acl_packet_queue.pending if rg.hosts[0].le_acl_packet_queue else None}; {ctx()}')
+        return ok
+
+    try:
+        x = rng.choice([1, 2])
+        got = await connect(rng.random() < 0.6, x, 0)
+        if got is None:
+            return
+        ca, cx, label = got
+        if not await exchange(ca, cx, x, 'first-connection', label):
+            return
+        for rnd in range(rng.choice([1, 2, 2])):
+            # ---- bulk transfer from A (or towards A), cut by a disconnection
+            sender = rng.choice([0, 0, x])
+            sconn = ca if sender == 0 else cx
+            frags = num + rng.choice([2, 10, 70])
+            total = 0
+            while total < frags:
+                size = 27 * rng.choice([3, 8, 70]) - 4
+                counter[0] += 1
+                rg.devices[sender].send_l2cap_pdu(sconn.handle, CID, bytes([0xBB, sender]) + counter[0].to_bytes(3, 'little') + bytes(size - 5))
+                total += -(-(size + 4) // 27)
+            for _ in range(rng.choice([0, 1, 3, 10, 40, 100])):
+                await asyncio.sleep(0)
+            by = rng.choice(['A', 'other'])
+            await vloop.vwait((ca if by == 'A' else cx).disconnect())
+            await rg.quiesce()
+            hist.append(f'bulk-{total}-fragments-from-{sender}-cut-by-{by}')
+            r.ev('recon_bulk_transfers_cut')
+            if sender == 0:
+                r.ev('recon_bulk_transfers_cut_from_A')
+            r.ev('disconnections_checked')
+            r.ev('oracle_evals')
+            if any(c.handle in rg.hosts[d].connections for d, c in ((0, ca), (x, cx))):
+                r.bad(f'disconnect/stale-connection/recon/{label}', f'a host still has the disconnected handle; {ctx()}')
+            # ---- the new connection of A must carry data
+            x = rng.choice([1, 2])
+            got = await connect(rng.random() < 0.6, x, rnd + 1)
+            if got is None:
+                return
+            ca, cx, label = got
+            r.ev('recon_new_connections_after_cut')
+            if not await exchange(ca, cx, x, 'after-cut-bulk-transfer', label):
+                return
+        r.ev('recon_cases_completed')
+    except vloop.Hang:
+        r.bad('recon/hang', f'a call was still pending at T_v; {ctx()}')
+    except (core.TimeoutError, asyncio.TimeoutError, core.ConnectionError, hci.HCI_Error, core.InvalidStateError) as e:
+        r.bad(f'recon/call-failed/{type(e).__name__}', f'{type(e).__name__}: {e}; {ctx()}')
+    for where, e in rg.exceptions:
+        r.bad('link/exception-in-stack', f'{where}: {e}; recon {ctx()}')
+    r.sig('recon', tuple(ext), num, tuple(hist))
+    r.sched.add(rg.schedule_signature)
+    r.evals()
+    r.sample = {'kind': 'recon', 'buffers': num, 'extended_adv': ext, 'history': hist}
+
+
 def auto_restart_armed(hist):
     """Auto-restart belongs to the advertising that was running when the incoming connection was accepted; a
     stop_advertising() / start_advertising() made while that connection is up is the host's newer word."""
@@ -1068,14 +1436,16 @@ def auto_restart_armed(hist):
 
 def run_case(case, r: R):
     return {'mesh': mesh, 'steal': steal, 'scan': scan, 'churn': churn, 'parallel': parallel,
-            'fragadv': fragadv, 'ghost': ghost, 'advsets': advsets, 'dual': dual}[case['kind']](case, r)
+            'fragadv': fragadv, 'ghost': ghost, 'advsets': advsets, 'dual': dual, 'pending': pending,
+            'recon': recon}[case['kind']](case, r)
 
 
 LEVEL_TEXT = ('Relations over connection/disconnection/advertisement events and a per-device fixed channel on 2-5 '
               'device rigs: right peer and role, mirrored addresses, live distinct handles, exactly-once in-order '
               'delivery to the peer only, disconnection reported to both, advertising and scan-response data byte '
               'for byte; devices that advertise and initiate at once (advertising state on the air and in the Device vs '
-              'a ledger); ~260 (quick) / ~5200 (thorough) generated topologies over every mix of public/random own '
+              'a ledger), with an outgoing connect() still pending while they are connected to, and new connections after a '
+              'bulk transfer was cut by a disconnection; ~260 (quick) / ~5200 (thorough) generated topologies over every mix of public/random own '
               'addresses, legacy/extended advertising, LE and BR/EDR. Sampling, not proof.')
 LEVEL_NOTE = 'Trusted: rig taps/inboxes (LocalLink routing itself is real), the event bookkeeping in checks/c06.py, virtual-time loop.'
 TECHNIQUE = 'runtime monitoring: event-log relation checker over multi-device executions with unique payload ids'
